@@ -96,17 +96,26 @@ func c04Kernels(c *core.Ctx, rule, deltaRule string, deltaOnly bool) {
 					adopt = append(adopt, s)
 				}
 			}
-			if len(adopt) != 1 || len(zero) != 1 {
+			if len(adopt) < 1 || len(zero) < 1 {
 				r := rule
 				if deltaOnly {
 					r = deltaRule
 				}
-				c.Fail(r, name+":"+k.nm+" kernel shape", f.Pos(), fmt.Sprintf("expected one adopting set%sTime(remote time) and one set%sTime(0), found %d/%d", k.nm, k.nm, len(adopt), len(zero)))
+				c.Fail(r, name+":"+k.nm+" kernel shape", f.Pos(), fmt.Sprintf("expected at least one adopting set%sTime(remote time) and one set%sTime(0), found %d/%d", k.nm, k.nm, len(adopt), len(zero)))
 				continue
 			}
-			la := eng.CallArgs(adopt[0].Common())
-			local := la[0]
+			local := eng.CallArgs(adopt[0].Common())[0]
 			remote := eng.CallArgs(zero[0].Common())[0]
+			isAny := func(set []ssa.CallInstruction) func(ssa.Instruction) bool {
+				return func(i ssa.Instruction) bool {
+					for _, x := range set {
+						if i == x.(ssa.Instruction) {
+							return true
+						}
+					}
+					return false
+				}
+			}
 			// strict comparison local < remote
 			lt := func(want bool) eng.Pred {
 				return eng.LtPred(fmt.Sprintf("local.%sTime() < remote.%sTime() is %v", k.nm, k.nm, want), want, func(x, y ssa.Value) bool {
@@ -115,45 +124,67 @@ func c04Kernels(c *core.Ctx, rule, deltaRule string, deltaOnly bool) {
 				})
 			}
 			if !deltaOnly {
-				valOK := isCallOn(la[1], k.get, func(r ssa.Value) bool { return eng.SameValue(r, remote) }) && !eng.SameValue(local, remote)
-				c.Check(valOK, rule, name+":"+k.nm+" adopts remote time", adopt[0].Pos(), "the local time is overwritten with the remote time", "the local "+k.nm+" time is overwritten with something other than the remote "+k.nm+" time: "+eng.Describe(la[1]))
-				g := eng.Guarded(adopt[0], lt(true))
-				c.Count("guard_cuts", 1)
-				if g.Guarded && g.Edges > 0 {
-					c.OK(rule, name+":"+k.nm+" only if local<remote", adopt[0].Pos(), "cut off by the strict comparison local<remote")
-				} else {
-					c.Fail(rule, name+":"+k.nm+" only if local<remote", adopt[0].Pos(), "the local "+k.nm+" time can be overwritten without local<remote (strict) — merge is no longer the pointwise maximum", g.Witness...)
+				for i, ad := range adopt {
+					la := eng.CallArgs(ad.Common())
+					sfx := ""
+					if i > 0 {
+						sfx = fmt.Sprintf("#%d", i)
+					}
+					valOK := eng.SameValue(la[0], local) && isCallOn(la[1], k.get, func(r ssa.Value) bool { return eng.SameValue(r, remote) }) && !eng.SameValue(local, remote)
+					c.Check(valOK, rule, name+":"+k.nm+" adopts remote time"+sfx, ad.Pos(), "the local time is overwritten with the remote time", "the local "+k.nm+" time is overwritten with something other than the remote "+k.nm+" time: "+eng.Describe(la[1]))
+					g := eng.Guarded(ad, lt(true))
+					c.Count("guard_cuts", 1)
+					if g.Guarded && g.Edges > 0 {
+						c.OK(rule, name+":"+k.nm+" only if local<remote"+sfx, ad.Pos(), "cut off by the strict comparison local<remote")
+					} else {
+						c.Fail(rule, name+":"+k.nm+" only if local<remote"+sfx, ad.Pos(), "the local "+k.nm+" time can be overwritten without local<remote (strict) — merge is no longer the pointwise maximum", g.Witness...)
+					}
 				}
-				ok, w := eng.MustFollow(f, []eng.Pred{lt(true)}, func(i ssa.Instruction) bool { return i == adopt[0].(ssa.Instruction) })
+				ok, w := eng.MustFollow(f, []eng.Pred{lt(true)}, isAny(adopt))
 				c.Check(ok, rule, name+":"+k.nm+" if local<remote", adopt[0].Pos(), "whenever local<remote the remote time is adopted", fmt.Sprintf("local<remote but the remote time is not adopted: %v", w))
 			} else {
-				c.Check(eng.SameValue(remote, eng.CallArgs(zero[0].Common())[0]) && !eng.SameValue(local, remote), deltaRule, name+":"+k.nm+" zero targets remote", zero[0].Pos(), "the zeroed entry is the remote (delta) one", "set"+k.nm+"Time(0) is applied to the local entry")
-				g := eng.Guarded(zero[0], lt(false))
-				c.Count("guard_cuts", 1)
-				if g.Guarded && g.Edges > 0 {
-					c.OK(deltaRule, name+":"+k.nm+" zeroed only if not new", zero[0].Pos(), "cut off by ¬(local<remote)")
-				} else {
-					c.Fail(deltaRule, name+":"+k.nm+" zeroed only if not new", zero[0].Pos(), "a remote "+k.nm+" time that is new (local<remote) can be zeroed out of the delta", g.Witness...)
+				for i, z := range zero {
+					sfx := ""
+					if i > 0 {
+						sfx = fmt.Sprintf("#%d", i)
+					}
+					c.Check(eng.SameValue(remote, eng.CallArgs(z.Common())[0]) && !eng.SameValue(local, remote), deltaRule, name+":"+k.nm+" zero targets remote"+sfx, z.Pos(), "the zeroed entry is the remote (delta) one", "set"+k.nm+"Time(0) is applied to the local entry")
+					g := eng.Guarded(z, lt(false))
+					c.Count("guard_cuts", 1)
+					if g.Guarded && g.Edges > 0 {
+						c.OK(deltaRule, name+":"+k.nm+" zeroed only if not new"+sfx, z.Pos(), "cut off by ¬(local<remote)")
+					} else {
+						c.Fail(deltaRule, name+":"+k.nm+" zeroed only if not new"+sfx, z.Pos(), "a remote "+k.nm+" time that is new (local<remote) can be zeroed out of the delta", g.Witness...)
+					}
 				}
-				ok, w := eng.MustFollow(f, []eng.Pred{lt(false)}, func(i ssa.Instruction) bool { return i == zero[0].(ssa.Instruction) })
+				ok, w := eng.MustFollow(f, []eng.Pred{lt(false)}, isAny(zero))
 				c.Check(ok, deltaRule, name+":"+k.nm+" zeroed if not new", zero[0].Pos(), "whenever the remote time is not new it is removed from the delta", fmt.Sprintf("remote time not new but kept in the delta: %v", w))
 			}
 		}
 		// IsZero / delete / write-back
 		zs := eng.Calls(f, false, idValIsZero)
-		if len(zs) != 1 {
+		var remote ssa.Value
+		if zc := eng.Calls(f, false, idValSetAddTime); len(zc) > 0 {
+			for _, z := range zc {
+				if v, ok := eng.ConstInt(eng.CallArgs(z.Common())[1]); ok && v == 0 {
+					remote = eng.CallArgs(z.Common())[0]
+				}
+			}
+		}
+		if len(zs) != 1 || remote == nil {
 			r := rule
 			if deltaOnly {
 				r = deltaRule
 			}
 			c.Fail(r, name+":IsZero", f.Pos(), fmt.Sprintf("expected one IsZero test of the remote entry, found %d", len(zs)))
-			continue
+			if remote == nil || deltaOnly {
+				continue
+			}
 		}
-		remote := eng.CallArgs(zs[0].Common())[0]
 		isZero := func(want bool) eng.Pred {
 			return eng.CallPred(fmt.Sprintf("remote.IsZero()=%v", want), idValIsZero, -1, want, func(a []ssa.Value) bool { return eng.SameValue(a[0], remote) })
 		}
-		var dels, keeps, writeBacks []ssa.Instruction
+		var dels, keeps, writeBacks, aliased []ssa.Instruction
 		eng.Instrs(f, func(in ssa.Instruction) {
 			if args, ok := eng.IsBuiltinCall(in, "delete"); ok {
 				if _, ok := eng.LoadOfField(args[0], "data"); ok {
@@ -161,10 +192,17 @@ func c04Kernels(c *core.Ctx, rule, deltaRule string, deltaOnly bool) {
 				}
 			}
 			if mu, ok := in.(*ssa.MapUpdate); ok {
-				if _, ok := eng.LoadOfField(mu.Map, "data"); ok {
-					if eng.SameValue(mu.Value, remote) {
+				if base, ok := eng.LoadOfField(mu.Map, "data"); ok {
+					_, localMap := base.(*ssa.Parameter) // the receiver's own map
+					if fv, isFV := base.(*ssa.FreeVar); isFV {
+						localMap = fv.Name() == "s"
+					}
+					switch {
+					case eng.SameValue(mu.Value, remote) && !localMap:
 						keeps = append(keeps, in)
-					} else {
+					case eng.SameValue(mu.Value, remote) && localMap:
+						aliased = append(aliased, in)
+					default:
 						writeBacks = append(writeBacks, in)
 					}
 				}
@@ -189,6 +227,12 @@ func c04Kernels(c *core.Ctx, rule, deltaRule string, deltaOnly bool) {
 				c.Check(g.Guarded && g.Edges > 0 && ok, deltaRule, name+":kept iff not IsZero", keeps[0].Pos(), "an entry with something new stays in the delta", fmt.Sprintf("keeping the remote entry is not equivalent to !remote.IsZero(): %v", w))
 			}
 		} else {
+			for _, a := range aliased {
+				c.Fail(rule, name+":local entry aliases the delta", a.Pos(), "the remote Value (a byte slice) is stored into the local set as is: the delta and the local state now share memory, and zeroing the delta later wipes the local times")
+			}
+			if len(aliased) == 0 {
+				c.OK(rule, name+":local entry does not alias the delta", f.Pos(), "the local set never stores the remote slice itself")
+			}
 			if len(writeBacks) != 1 {
 				c.Fail(rule, name+":write-back", f.Pos(), fmt.Sprintf("expected one write-back of the merged local entry, found %d", len(writeBacks)))
 			} else {
